@@ -13,6 +13,13 @@ Oracle: the two Time_Period tables of docs/data_types.rst (accepted input format
       'Not supported'
   (3) normalize(render_f(canon(p))) = canon(p)        for every supported (f, indicator)   [read back what was written]
   (4) the Python handler and the SQL macros agree on (1)-(3)                              [bounded, exhaustive 1900-2100]
+  (5) the normaliser of the pandas load path, DataTypes/_time_checking.py:check_time_period (and the real
+      files/parser:_validate_pandas on a Time_Period column), gives canon(p) = vtl_period_normalize(s) for every
+      documented spelling s of every period p                                             [bounded, same years/spellings]
+      + structural lemma for all inputs when it applies: every return of _check_time_period_cached is
+      str(TimePeriodHandler(..)).  vc.pyvc cannot execute the function symbolically: a regex match object is Opaque (the
+      `is not None` test is not forked), TimePeriodHandler.__init__ aborts on its hyphenated branch ("equality of
+      unmodelled value") and str(handler) is Opaque - so (5) is NOT a proof.
 """
 from __future__ import annotations
 
@@ -27,7 +34,7 @@ from spec import vtl_time as vt  # noqa: E402
 from spec.docs import REPO, list_tables  # noqa: E402
 from vc import calendar as cal  # noqa: E402
 from vc import core, smt, sqlconf  # noqa: E402
-from vc.core import BOUNDED_OK, REFUTED, Check  # noqa: E402
+from vc.core import BOUNDED_OK, DISCHARGED, REFUTED, UNDECIDED, Check  # noqa: E402
 from vc.smt import And, Eq, Ge, Le, Lt, Not  # noqa: E402
 from vc.sqlcheck import discharge_groups, period_text_is  # noqa: E402
 from vc.sqlvc import SV, CStr, SqlEngine, SqlPath, digits_of  # noqa: E402
@@ -89,7 +96,8 @@ def main() -> None:  # noqa: C901
     chk = Check("C21", "proof", "SQL codec macros parsed from the working tree and evaluated symbolically (vc.sqlvc): every "
                 "documented input spelling normalises to the canonical text, every output format renders the documented "
                 "form (or the documented error), and written values read back to the same period, for all years "
-                "1000..9998 (z3/cvc5); Python TimePeriodHandler vs SQL compared exhaustively for 1900..2100 (bounded tier)",
+                "1000..9998 (z3/cvc5); Python TimePeriodHandler, the load-path normaliser check_time_period and "
+                "_validate_pandas vs SQL compared exhaustively for 1900..2100 (bounded tier)",
                 min_obligations=20 if not os.environ.get("VERIF_ONLY") else 1)
     out_tab = doc_output_table()
     in_tab = doc_input_formats()
@@ -235,6 +243,9 @@ def main() -> None:  # noqa: C901
                "grid and by the native replay of every counter-model; not proved)")
     chk.assume("documented spellings are the templates of the docs table; unpadded numbers have no leading zeros; years "
                "1000..9998 in the proof tier, 1900..2100 in the bounded Python-vs-SQL tier")
+    chk.assume("check_time_period is judged on the documented spellings only (surrounding blanks, which it strips, and "
+               "non-documented spellings it happens to accept are unspecified); non-str cells other than a Python int year "
+               "are not exercised")
     chk.assume("apply_time_period_representation (table-level application of the macros) is not under contract")
     chk.finish()
 
@@ -329,6 +340,8 @@ def python_vs_sql(chk: Check, out_tab: Dict[str, Dict[str, str]]) -> None:
         ob.replayed, ob.replay_detail, ob.finding_key = True, f"native: {mism[0]}", "python-vs-sql::parse::" + mism[0]["input"][4:6]
     else:
         ob.status, ob.detail = BOUNDED_OK, f"{n_eval} (period, spelling) pairs"
+    input_normaliser_vs_sql(chk, rows, got["norm"].tolist())
+    normaliser_returns_handler_text(chk)
     # rendering
     canon_rows = sorted({(yy, ind, nn) for yy, ind, nn, _t, _s in rows})
     cdf = pd.DataFrame([(vt.canon(*r),) for r in canon_rows], columns=["c"])
@@ -368,6 +381,188 @@ def python_vs_sql(chk: Check, out_tab: Dict[str, Dict[str, str]]) -> None:
     else:
         ob2.status, ob2.detail = BOUNDED_OK, f"{n2} (period, format) pairs"
     chk.extra["bounded_pairs"] = {"parse": n_eval, "render": n2, "years": [min(years), max(years), len(list(years))]}
+
+
+def normaliser_returns_handler_text(chk: Check) -> None:
+    """Structural lemma, for ALL inputs (complete over the return statements of the real function text): every value
+    returned by `_check_time_period_cached` is `str(h)` of a TimePeriodHandler `h` built in that call, never the input
+    text.  It is a SUFFICIENT argument only (a correct normaliser may be written otherwise), so when it does not apply
+    nothing is claimed and nothing is reported: the bounded obligations below stay the deciding ones."""
+    import ast as pyast
+    from vc.pysrc import find_def
+    rel = "DataTypes/_time_checking.py"
+    fn = find_def(rel, "_check_time_period_cached")
+    if not isinstance(fn, pyast.FunctionDef):
+        chk.notes.append("structural lemma on _check_time_period_cached not attempted: function not found")
+        return
+    defs: Dict[str, List[pyast.expr]] = {}
+    params = {a.arg for a in fn.args.args + fn.args.kwonlyargs}
+    returns: List[pyast.Return] = []
+    for node in pyast.walk(fn):
+        if isinstance(node, pyast.Assign):
+            for t in node.targets:
+                if isinstance(t, pyast.Name):
+                    defs.setdefault(t.id, []).append(node.value)
+        elif isinstance(node, pyast.AnnAssign) and isinstance(node.target, pyast.Name) and node.value is not None:
+            defs.setdefault(node.target.id, []).append(node.value)
+        elif isinstance(node, (pyast.AugAssign, pyast.NamedExpr, pyast.For, pyast.With, pyast.Lambda)) or \
+                (isinstance(node, (pyast.FunctionDef, pyast.AsyncFunctionDef)) and node is not fn):
+            chk.notes.append(f"structural lemma on _check_time_period_cached not attempted: {type(node).__name__} at line "
+                             f"{node.lineno} is outside the analysed subset")
+            return
+        elif isinstance(node, pyast.Return):
+            returns.append(node)
+
+    def is_handler(e: pyast.expr, depth: int = 0) -> bool:
+        if isinstance(e, pyast.Call) and isinstance(e.func, pyast.Name) and e.func.id == "TimePeriodHandler":
+            return True
+        if isinstance(e, pyast.IfExp):
+            return is_handler(e.body, depth) and is_handler(e.orelse, depth)
+        if isinstance(e, pyast.Name) and e.id not in params and depth < 4:
+            return bool(defs.get(e.id)) and all(is_handler(v, depth + 1) for v in defs[e.id])
+        return False
+
+    def is_handler_text(e: Optional[pyast.expr], depth: int = 0) -> bool:
+        if isinstance(e, pyast.Call) and isinstance(e.func, pyast.Name) and e.func.id == "str" and len(e.args) == 1 \
+                and not e.keywords:
+            return is_handler(e.args[0])
+        if isinstance(e, pyast.Name) and e.id not in params and depth < 4:
+            return bool(defs.get(e.id)) and all(is_handler_text(v, depth + 1) for v in defs[e.id])
+        return False
+
+    other = [r for r in returns if not is_handler_text(r.value)]
+    if other or not returns:
+        chk.notes.append("structural lemma 'every return of _check_time_period_cached is str(TimePeriodHandler(..))' does "
+                         "not apply (" + "; ".join(f"line {r.lineno}: return {pyast.unparse(r.value) if r.value else ''}"
+                                                   for r in other[:3]) + "): only the bounded obligations speak about "
+                         "check_time_period")
+        return
+    f = f"src/vtlengine/{rel}:_check_time_period_cached"
+    ob = chk.ob(f"{f}::returns-handler-text", f, "for all inputs: every return statement yields str(h) for a "
+                "TimePeriodHandler h constructed in the call (the result is the handler's own rendering, never the text "
+                "that was typed)")
+    ob.backend = "ast-dataflow"
+    ob.status, ob.detail = DISCHARGED, f"{len(returns)} return statement(s), all of the form str(TimePeriodHandler(..))"
+
+
+def input_normaliser_vs_sql(chk: Check, rows: Sequence[Tuple[int, str, int, str, str]], norms: Sequence[Any]) -> None:
+    """(5) bounded, exhaustive over the same years / spellings as (4): the normaliser of the pandas load path,
+    `check_time_period` (files/parser TIME_CHECKS_MAPPING[TimePeriod], applied by `_validate_pandas`), maps every
+    documented spelling of every period to the canonical text, i.e. to what SQL `vtl_period_normalize` gives.  Time_Period
+    equality is string equality of this internal value, so two spellings of one period must not stay different."""
+    import importlib
+    rel = "src/vtlengine/DataTypes/_time_checking.py"
+    f = f"{rel}:check_time_period"
+    chk.under_contract(f, "bounded")
+    chk.under_contract(f"{rel}:_check_time_period_cached", "bounded")
+    ob = chk.ob(f"{f}::normalises-to-canonical-like-sql", f, "for every period of 1900..2100 and every documented spelling "
+                "s: check_time_period(s) = canonical text = vtl_period_normalize(s) (so the canonical text is a fixpoint, "
+                "all spellings of a period load as the same internal value, and every value written by an output format "
+                "loads back as the period it was rendered from); an int year loads as the annual period", bounded=True)
+    ob.backend = "bounded-exhaustive-native"
+    try:
+        tc = importlib.import_module("vtlengine.DataTypes._time_checking")
+        fn = tc.check_time_period
+    except (ImportError, AttributeError) as e:
+        ob.status, ob.detail = UNDECIDED, f"check_time_period not found: {e}"
+        return
+    cached = getattr(tc, "_check_time_period_cached", None)
+
+    def fresh(s: Any) -> str:
+        if hasattr(cached, "cache_clear"):
+            cached.cache_clear()      # lru_cache is per process: never judge a value remembered from another call
+        try:
+            return fn(s)
+        except Exception as e:  # noqa: BLE001
+            return f"raises {type(e).__name__}"
+
+    if hasattr(cached, "cache_clear"):
+        cached.cache_clear()
+    mism: List[Any] = []
+    n_eval = 0
+    for (yy, ind, nn, tmpl, s), norm in zip(rows, norms):
+        n_eval += 1
+        want = vt.canon(yy, ind, nn)
+        try:
+            py = fn(s)
+        except Exception as e:  # noqa: BLE001
+            py = f"raises {type(e).__name__}"
+        if not (py == want == norm):
+            mism.append({"input": s, "check_time_period": py, "sql": norm, "documented": want, "ind": ind, "tmpl": tmpl})
+    for yy in sorted({r[0] for r in rows}):
+        n_eval += 1
+        try:
+            py = fn(yy)  # type: ignore[arg-type]
+        except Exception as e:  # noqa: BLE001
+            py = f"raises {type(e).__name__}"
+        if py != vt.canon(yy, "A", 1):
+            mism.append({"input": yy, "check_time_period": py, "sql": None, "documented": vt.canon(yy, "A", 1), "ind": "A",
+                         "tmpl": "int"})
+    if mism:
+        m0 = mism[0]
+        again = fresh(m0["input"])
+        ob.status, ob.witness = REFUTED, {k: m0[k] for k in ("input", "check_time_period", "sql", "documented")}
+        ob.detail = f"{len(mism)} of {n_eval} spellings load as something else than the canonical text, e.g. {ob.witness}"
+        ob.replayed = again != m0["documented"]
+        ob.replay_detail = f"native, cache cleared: check_time_period({m0['input']!r}) = {again!r}; documented period " \
+                           f"{m0['documented']!r}; real DuckDB vtl_period_normalize = {m0['sql']!r}"
+        ob.finding_key = f"check_time_period::{m0['ind']}::{m0['tmpl']}"
+    else:
+        ob.status, ob.detail = BOUNDED_OK, f"{n_eval} (period, spelling) pairs"
+
+    # the same through the real load-path validator on a DataFrame
+    f2 = "src/vtlengine/files/parser/__init__.py:_validate_pandas"
+    chk.under_contract(f2, "bounded")
+    ob2 = chk.ob(f"{f2}::time-period-column-loads-canonical", f2, "a Time_Period measure column holding every documented "
+                 "spelling of every period of 1900..2100 is returned by _validate_pandas with each cell equal to the "
+                 "canonical text (= vtl_period_normalize of the cell)", bounded=True)
+    ob2.backend = "bounded-exhaustive-native"
+    try:
+        import pandas as pd
+        parser = importlib.import_module("vtlengine.files.parser")
+        model = importlib.import_module("vtlengine.Model")
+        dt = importlib.import_module("vtlengine.DataTypes")
+        vp = parser._validate_pandas
+        comps = {"Id_1": model.Component(name="Id_1", data_type=dt.Integer, role=model.Role.IDENTIFIER, nullable=False),
+                 "Me_1": model.Component(name="Me_1", data_type=dt.TimePeriod, role=model.Role.MEASURE, nullable=True)}
+    except (ImportError, AttributeError) as e:
+        ob2.status, ob2.detail = UNDECIDED, f"load-path validator not found: {e}"
+        return
+
+    def load(cells: Sequence[str]) -> List[Any]:
+        if hasattr(cached, "cache_clear"):
+            cached.cache_clear()
+        df = pd.DataFrame({"Id_1": list(range(1, len(cells) + 1)), "Me_1": pd.Series(list(cells), dtype=object)})
+        try:
+            return [str(v) for v in vp(comps, df, "DS_1")["Me_1"].tolist()]
+        except Exception as e:  # noqa: BLE001
+            return [f"raises {type(e).__name__}: {str(e)[:160]}"] * len(cells)
+
+    cells = [r[4] for r in rows]
+    out = load(cells)
+    bad = [(r, o, nrm) for r, o, nrm in zip(rows, out, norms) if not (o == vt.canon(r[0], r[1], r[2]) == nrm)]
+    if bad and out[0].startswith("raises") and len(set(out)) == 1:
+        # the whole frame was rejected: bisect down to one offending cell (loaded in a frame of its own)
+        lo, hi = 0, len(cells)
+        while hi - lo > 1:
+            mid = (lo + hi) // 2
+            if load(cells[lo:mid])[0].startswith("raises"):
+                hi = mid
+            else:
+                lo = mid
+        bad = [(rows[lo], load([cells[lo]])[0], norms[lo])]
+    if bad:
+        (yy, ind, nn, tmpl, s), o, nrm = bad[0]
+        again = load([s])[0]
+        want = vt.canon(yy, ind, nn)
+        ob2.status, ob2.witness = REFUTED, {"cell": s, "loaded": o, "sql": nrm, "documented": want}
+        ob2.detail = f"{len(bad)} of {len(cells)} cells load as something else than the canonical text, e.g. {ob2.witness}"
+        ob2.replayed = again != want
+        ob2.replay_detail = f"native: _validate_pandas on a one-row frame with Me_1 = {s!r} (Time_Period) returns " \
+                            f"{again!r}; documented period {want!r}; real DuckDB vtl_period_normalize = {nrm!r}"
+        ob2.finding_key = f"_validate_pandas::time_period::{ind}::{tmpl}"
+    else:
+        ob2.status, ob2.detail = BOUNDED_OK, f"{len(cells)} cells in one frame"
 
 
 if __name__ == "__main__":
